@@ -75,7 +75,7 @@ Proof. exact event_silent. Qed.
 Print Assumptions C11_event_silent.
 
 Theorem C11_bootstrap_view : forall i,
-  c11_scope i = true ->
+  in_scope i = true ->
   exists st0 snap, m_bootstrap i = Ok st0 /\ m_snapshot st0 (option_names i) = Some (st0, snap) /\
                    boot_oracle i true snap = true.
 Proof. exact bootstrap_view. Qed.
@@ -136,6 +136,14 @@ Theorem C11_portlist_auto_accepted :
   accepted11 w11_auto 6 (XSocks (SockTcp (bs "127.0.0.1") 9050)).
 Proof. exact f11_auto_accepted. Qed.
 Print Assumptions C11_portlist_auto_accepted.
+
+(* a typed scalar option reset to its default is announced by its keyword alone: it then reads as the
+   config/defaults line parsed by the declared type (an int, not the text "0") *)
+Theorem C11_reset_scalar_reads_typed_default :
+  accepted11 w11_reset 1 (XVal (RAtom (AInt 8))) /\ accepted11 w11_reset 3 (XVal (RAtom (AInt 0))) /\
+  accepted11 w11_reset 4 (XVal (RAtom (AStr (bs "DEFAULT")))).
+Proof. exact f11_reset_accepted. Qed.
+Print Assumptions C11_reset_scalar_reads_typed_default.
 
 (* ---- the open finding: the full statement fails on a concrete input of the class ---- *)
 Theorem C11_edit_while_detached_refuted :
